@@ -859,7 +859,7 @@ func c09fAcceptedHyps(c *Ctx, kinds, dumps, texts []string) int {
 		}
 		r.hist("accepted-file:" + kinds[i] + ":" + combo + ":wf=" + wf)
 		all := f["hyps"] == "true"
-		if all != (f["strs"] == "true" && f["nonegz"] == "true" && f["mb"] == "true" && f["dist"] == "true" && f["calls"] == "true") ||
+		if all != (f["strs"] == "true" && f["nonegz"] == "true" && f["mb32"] == "true" && f["dist"] == "true" && f["calls"] == "true") || // fileHyps carries fileMB32Valid (F29's range = wfMB; F25 subsumed)
 			(f["hyps32"] == "true") != (all && f["mb32"] == "true") || (f["mb32"] == "true" && f["mb"] != "true") {
 			r.violate(Violation{Kind: "correspondence", Key: "C09:accepted-file-not-wf", What: "fileHyps / fileHyps32 are not the conjunctions of their parts, or fileMB32Valid does not imply fileMBValid", Input: in, Model: rep, Broken: "Props.C09.fileHyps32_implies"})
 		}
